@@ -110,6 +110,11 @@ FAMILIES = [
     ["/(bc)?/", '"x"', "/[0-9]*/"],
     ["/a*/", '"a"', "/[a-b]*/"],
     ["/x?/", "/y?/", '"xy"'],
+    # a pattern whose whole language is taken by string literals: it ends up owning no state, which is no conflict
+    ["/\\+/", '"+"', "/[0-9]+/"],
+    ["/true|false/", '"true"', '"false"', "/[0-9]+/"],
+    ["/i[f]/", '"if"', "/[a-z]+/"] if False else ["/i[f]/", '"if"', "/[0-9]+/"],
+    ["/ab?/", '"a"', '"ab"'],
 ]
 
 RAND_PATTERNS = ["/[a-z]+/", "/[a-c]+/", "/[b-d]+/", "/[0-9]+/", "/[0-9a-f]+/", "/a*b/", "/ab*/", "/(ab)+/", "/a|b|ab/", "/[a-z][a-z0-9]*/",
@@ -165,6 +170,7 @@ def check(tier):
     texts = [spec_of_defs(s) for s in sets]
     res = C.hook_map([{"op": "spec_dfa", "text": t} for t in texts], timeout_each=30)
     insts, meta, dist = [], [], {"accepted": 0, "conflict": 0, "spec_rejected": 0, "nul_set_skipped": 0, "slow": 0}
+    other_errors = []
     for s, t, r in zip(sets, texts, res):
         if r.get("outcome") == "slow":
             dist["slow"] += 1
@@ -175,7 +181,11 @@ def check(tier):
         defs = [(d[0], d[1], bool(d[2])) for d in r["definitions"]]
         if "dfa_error" in r:
             if "conflicting definitions" not in r["dfa_error"]:
-                dist["spec_rejected"] += 1
+                if "invalid regular expression" in r["dfa_error"]:
+                    dist["spec_rejected"] += 1
+                else:
+                    # the patterns are valid and no conflict is reported: the scanner must exist
+                    other_errors.append((s, t, r["dfa_error"]))
                 continue
             dist["conflict"] += 1
             insts.append((defs, None))
@@ -216,6 +226,10 @@ def check(tier):
     # NUL-set patterns (known finding D3 of C02) make the per-definition expression differ from the documented one, but the
     # instance check uses the code-faithful expression, so they are certified like the others.
     rep.obligation("certified instances: %d scanner automata / conflict verdicts" % len(insts), not bad)
+    rep.obligation("a scanner is built whenever the patterns are valid and no conflict is reported", not other_errors)
+    for s_, t_, e_ in other_errors[:3]:
+        rep.failure("scanner-error", {"scanner-error"}, {"definitions": s_, "input_text": t_, "reported": e_[:400],
+                    "why": "every pattern is valid and no two definitions conflict, yet Spec.DFA returns an error"})
     if bad:
         explain(rep, [(insts[i], meta[i]) for i in bad[:12]])
     if not ok and not rep.violations:
